@@ -6,7 +6,7 @@
    connection counts over long runs; the race detector over the concurrent loops) - partial. *)
 From Coq Require Import ZArith NArith Bool List.
 From Mysync Require Import Gtid.Interval Gtid.GtidSet Pure.Quorum Base.Prog Base.ProgFacts Base.Config
-  Base.Post Procs.NodeOps Procs.Lost Procs.ActiveNodes Procs.Switchover Procs.Repair Procs.Manager Procs.Recovery Proofs.RepairProofs Proofs.ManagerProofs Proofs.RecoveryProofs Proofs.NoCrash.
+  Base.Post Procs.NodeOps Procs.Lost Procs.ActiveNodes Procs.Switchover Procs.Repair Procs.Optimization Procs.Manager Procs.Recovery Proofs.RepairProofs Proofs.ManagerProofs Proofs.RecoveryProofs Proofs.NoCrash.
 Import ListNotations.
 Open Scope Z_scope.
 
@@ -69,8 +69,8 @@ Print Assumptions C20_cascade_repair_never_repoints_to_itself.
    Seven leaves WERE reachable when the proof was first attempted; each witness reproduced on the real code
    and was repaired in /repo: a replica status that comes back empty (four sites, afce506), a health record
    without replication settings (188364a), a stream_from candidate whose state was collected only partly
-   (226864b).  Not covered: the pre-switchover speed-up phase (Procs/Optimization.v optimization_phase, findings
-   C19-F1..F5) is not part of perform_switchover's model. *)
+   (226864b).  The pre-switchover speed-up phase is not part of perform_switchover's model; it is covered by its
+   own theorem below. *)
 Theorem C20_manager_iteration_never_crashes : forall cfg env m tr o,
   runs (state_manager cfg env m) tr o -> exists a, o = Done a.
 Proof. exact state_manager_never_crashes. Qed.
@@ -97,3 +97,14 @@ Print Assumptions C20_maintenance_state_never_crashes.
 Theorem C20_lost_state_never_crashes : forall cfg env, nopanic (state_lost cfg env).
 Proof. exact state_lost_nopanic. Qed.
 Print Assumptions C20_lost_state_never_crashes.
+
+(* the speed-up phase that precedes a planned switchover (replication.go optimizationPhase: choice of the replica,
+   registration, the waiter and the concurrently ticking syncer) never crashes either, given what stateManager
+   establishes for the view it hands over: the hosts of the health records are registered hosts and so is the
+   master.  An eighth reachable crash leaf was found here (a requested target that is in the active list but not
+   registered: nil handle passed to the controller) and repaired in /repo (5861b10). *)
+Theorem C20_speedup_phase_never_crashes : forall fuel cfg env sw active timeout tr o,
+  incl (map fst (ov_states env)) (ov_cluster env) -> In (ov_master env) (ov_cluster env) ->
+  runs (optimization_phase fuel cfg env sw active timeout) tr o -> exists a, o = Done a.
+Proof. exact optimization_phase_never_crashes. Qed.
+Print Assumptions C20_speedup_phase_never_crashes.
